@@ -26,7 +26,7 @@ ASSUMPTIONS = [
     "file names contain no newline and are ASCII (git's ? and [..] match bytes, pathspec characters: not part of the statement); patterns are matched against the resolved path relative to the resolved root",
 ]
 
-SEGS = ["a", "b", "src", "x y", "w[1]", "st*r", "q?", "#h", "!n", "-d", "A", "c.d", "inc", "e_1"]
+SEGS = ["a", "b", "src", "x y", "w[1]", "st*r", "q?", "#h", "!n", "-d", "A", "c.d", "inc", "e_1", "v.c", "t.h"]  # the last two: directory names that `*.ext` patterns match
 EXTS = [".c", ".h", ".cpp", ".txt", ".o", "", ".f90", ".C"]
 SOURCE_EXT = {".f90", ".F90", ".f", ".ftn", ".fpp", ".F", ".FOR", ".FTN", ".FPP", ".c", ".h", ".c++", ".cxx", ".cpp", ".cc", ".hpp", ".hxx", ".h++", ".hh", ".inc", ".inl", ".tcc", ".icc", ".ipp", ".cu", ".cuh", ".cl", ".s", ".S", ".asm"}
 
@@ -214,8 +214,26 @@ def check_case(case, res: Result):
                         os.chdir(wd)
                         forms.append(os.path.relpath(sp, wd))
                         for form in forms:
-                            if os.path.realpath(form) != real:
-                                continue  # `x/../x` is not the same file when x is a symbolic link
+                            rf = os.path.realpath(form)
+                            if rf != real:
+                                # `x/../x` is not the same file when x is a symbolic link: the operating
+                                # system's reading of the spelling decides which file is asked about
+                                if rf in expected:
+                                    want = expected[rf]
+                                elif not os.path.lexists(rf):
+                                    want = False
+                                else:
+                                    continue
+                                try:
+                                    got_other = form in cb
+                                except Exception as e:
+                                    vs.append(make_violation(f"exception:{type(e).__name__}", cj, "a boolean", f"{type(e).__name__}: {e} for {form!r}"))
+                                    return vs
+                                res.labels["dotdot-after-link-spelling"] += 1
+                                if got_other != want:
+                                    vs.append(make_violation("spelling:dotdot-after-link", cj, {"spelling": form.replace(top, "<top>"), "resolves-to": rf.replace(top, "<top>"), "member": want}, got_other))
+                                    return vs
+                                continue
                             try:
                                 answers[(wd == root, form)] = form in cb
                             except Exception as e:
